@@ -321,6 +321,10 @@ func BuildS3(opt S3Options) (*S3, error) {
 	for _, p := range s.Programs {
 		if p.Pkg != nil {
 			p.indexMarkers(s)
+			// idiom normalisation (after SSA construction, which wants the original trees)
+			if len(p.LoadErrs) == 0 && p.Pkg.TypesInfo != nil {
+				normalizePackage(p.Pkg.TypesInfo, p.Pkg.Syntax)
+			}
 		}
 	}
 	sort.Slice(s.Programs, func(i, j int) bool { return s.Programs[i].Name < s.Programs[j].Name })
@@ -489,6 +493,16 @@ func (s *S3) coverageSummary(r *Report) {
 	}
 	sort.Strings(defs)
 	r.Analysed["template_defines_instantiated"] = len(defs)
+	if ti, err := LoadTemplates(filepath.Join(repoDir(), "generator")); err == nil && len(defs) > 0 {
+		var missing []string
+		for d := range ti.Defines {
+			if !s.Defines[d] {
+				missing = append(missing, d)
+			}
+		}
+		sort.Strings(missing)
+		r.Analysed["template_defines_not_instantiated"] = missing
+	}
 	var names []string
 	nGenFail := 0
 	for _, p := range s.Programs {
